@@ -307,7 +307,7 @@ UNITS = [dict(
     kani=dict(
         functions=[dict(file=FO, fn="new", within=r"impl Normalizer16")],
         modules=[SUPPORT],
-        harnesses=[dict(name="k4_normalizer16_new_cases", kind="bounded", timeout=1500, props=["C01", "C10", "C03"],
+        harnesses=[dict(name="k4_normalizer16_new_cases", kind="bounded", timeout=1500, props=["C01", "C10", "C18", "C03"],
                         bound="six concrete windows of 3 weights (smooth, sharpening, near the 4.0 head-room limit, tiny, huge custom, empty)",
                         claim="0<=p<=21 and p is the LARGEST precision whose max coefficient fits i16; max w < 4 => p >= 12; k_i == round(w_i*2^p) as i16; start/len copied; the max weight is not saturated")],
     ),
